@@ -32,6 +32,7 @@ RULE = (
     'both} per class; signature = (class, history op-sequence, final fixed '
     'mask); non-trivial = >=2 calls or a release / re-fix')
 ASSUMPTIONS = [
+    "ReducedErrorModel refuses names of free parameters over 50 characters (pinned by the repository's tests): multi-output objects whose prefixed free error-parameter names exceed the limit are counted as rejected, not as violations",
     'the twin object is built from identical inputs and never has '
     'fix_parameters called on it',
     'seeded sampling of twin and reduced object uses the same integer seed',
@@ -971,7 +972,7 @@ def prefixed_error_case(ctx, rng, idx):
     # output names as long as those of compartment models (the prefixed
     # error parameter names then exceed 50 characters)
     long_names = rng.random() < 0.5
-    onames = ['central_compartment.free_drug_concentration_%d' % (o + 1)
+    onames = ['central_compartment.free_drug_concentration_no_%d' % (o + 1)
               if long_names else 'Out %d' % (o + 1) for o in range(2)]
     em_full = []
     for o, cn in enumerate(cnames):
@@ -1018,6 +1019,11 @@ def prefixed_error_case(ctx, rng, idx):
             else:
                 obj = chi.PredictiveModel(toys.ToyMulti(2, onames), ems)
     except Exception as e:      # noqa
+        if long_names and 'cannot exceed 50 characters' in str(e):
+            # the documented (and pinned) limit on the names of a reduced
+            # error model: a refusal, not a wrong result
+            ctx.reject('name limit of ReducedErrorModel')
+            return
         ctx.violation_exc('construction_raises', e, {'case': feats}, feats)
         return
     ctx.count('prefixed_error_objects')
